@@ -62,7 +62,7 @@ def _empty(rep):
     return f'<table:table-cell table:number-columns-repeated="{rep}"/>'
 
 
-@family("ods-repeat", "ods", variants=("cols", "rows", "both", "gap-cols", "gap-rows"), ms=(10, 1000, 30000, 10**6, 10**9))
+@family("ods-repeat", "ods", variants=("cols", "rows", "both", "gap-cols", "gap-rows", "multi-cols", "multi-gaps"), ms=(10, 1000, 30000, 10**6, 10**9))
 def ods_repeat(m, variant):
     if variant == "cols":
         rows = f"<table:table-row>{_cell(rep=m)}</table:table-row>"
@@ -71,6 +71,10 @@ def ods_repeat(m, variant):
     elif variant == "both":
         k = max(2, int(m ** 0.5))
         rows = f'<table:table-row table:number-rows-repeated="{k}">{_cell(rep=k)}</table:table-row>'
+    elif variant == "multi-cols":    # many value cells in one row, each with its own repeat: the cap has to hold for the row, not per cell
+        rows = "<table:table-row>" + "".join(_cell(f"ZM{i:05d}", rep=m) for i in range(200)) + "</table:table-row>"
+    elif variant == "multi-gaps":    # many kept gaps in one row
+        rows = '<table:table-row table:number-rows-repeated="20">' + "".join(_cell(f"ZM{i:05d}") + _empty(m) for i in range(200)) + _cell("ZB00002") + "</table:table-row>"
     elif variant == "gap-cols":      # an empty run between two values keeps its width
         rows = f'<table:table-row table:number-rows-repeated="50">{_cell("ZB00001")}{_empty(m)}{_cell("ZB00002")}</table:table-row>'
     else:                            # empty rows between two value rows
